@@ -955,7 +955,12 @@ def run(ctx, replay=None):
         "itemsize (all of them in every run) + seeded random geometries with limits around products of merged "
         "widths; the same inputs through x.rechunk(new, threshold=, block_size_limit=) on arrays of that itemsize (int, void, "
         "structured, complex dtypes), whole graph executed, every block measured in bytes; distinct = (rank, itemsize, "
-        "limit % itemsize != 0, a block larger than both endpoints, multi-stage graph)"
+        "limit % itemsize != 0, a block larger than both endpoints, multi-stage graph); unknown (nan) block sizes: a fixed sweep of "
+        "17 nan position patterns x 7 known old/new pairs x axis order (+ rank 3 with two unknown axes) and seeded random rank 1-3 "
+        "chunkings through old_to_new / intersect_chunks / _validate_rechunk (valid + 7 kinds of refused change) / plan_rechunk / "
+        "the estimates; arrays assembled from known and boolean-masked cells (every pattern, one or two unknown axes, 5 wrappers) "
+        "through x.rechunk(dict / tuple / scalar spec, kwargs); distinct = (rank, set of nan patterns, spec form, changes an "
+        "unknown axis, kwargs, wrapper, outcome)"
     )
     ctx.assumptions += [
         "float-derived planner choices (sort order, chunk_limit, max_number, nsteps, count) are recorded from the real run "
@@ -967,6 +972,9 @@ def run(ctx, replay=None):
         "array.chunk-size); a threshold / limit argument of None (or 0) means 'use the configuration'",
         "threshold, itemsize, limit are integers (the configuration values are); the termination of the `while True` loop is "
         "checked by a watchdog on every generated case, not proved",
+        "unknown block sizes: a rechunk must leave an axis with nan entries exactly as it is (same length, nan-for-nan, "
+        "known-for-known); a spec that asks for anything else on such an axis (int, -1 on several blocks, 'auto', another tuple) "
+        "must be refused; 'auto' on a known axis beside an unknown one and balance=True may be refused",
     ]
     ctx.extra["trusted_base"] = [
         "the recording wrappers for sorted/int/round/math in the namespace of dask_array._rechunk (harness/props/C15.py)",
